@@ -11,9 +11,10 @@
    inside a sub-vtree lies inside that sub-vtree and denotes their conjunction; the shipped cache
    (a HashMap that only ever holds earlier results of the same pure function) is one such oracle,
    the empty cache another.  Fuel [S (vheight t)] always suffices: no OutOfFuel, no Panic. *)
-From Coq Require Import Bool NArith List Lia Arith.
+From Coq Require Import Bool NArith List Lia Arith Permutation.
 Import ListNotations.
 From RsddV Require Import Base.Bdd Model.SddVtree Model.SddOps.
+From RsddV Require Model.Compile.
 From RsddV Require Import Proofs.SddBase Proofs.SddVtree Proofs.SddInv Proofs.SddLoops Proofs.SddNode
   Proofs.SddAnd Proofs.SddCond Proofs.SddProg.
 
@@ -116,6 +117,18 @@ Theorem C03_sdd_compose_correct : forall t compress_on cache ic f v g,
       (Bool.eqb (upd s v false v) (sden g (upd s v false)) && sden f (upd s v false)).
 Proof. intros t cm cache ic f v g ND CS. apply (compose_ok_u t ND cm cache CS (S (vheight t)) (Nat.lt_succ_diag_r _)). Qed.
 Print Assumptions C03_sdd_compose_correct.
+
+(* compile_cnf (C05 link).  The clause order after the code's sort_by is not determined (non-total
+   comparator): the theorem holds for EVERY permutation [sorted] of the clauses.  Covers the empty
+   formula (true), an empty clause (false), unit clauses, repeated and complementary literals:
+   there is no hypothesis on the clauses beyond "literals name leaves of the vtree". *)
+Theorem C03_sdd_compile_cnf_correct : forall t compress_on cache (f sorted : Compile.cnf),
+  NoDup (vleaves t) -> cache_sound t cache -> Permutation sorted f ->
+  Forall (Forall (fun l : Compile.literal => In (fst l) (vleaves t))) f ->
+  exists r, compile_cnf_m t compress_on cache (S (vheight t)) f sorted = Ok r /\ under t 0 r /\
+            forall a, sden r a = Compile.cnf_eval f a.
+Proof. intros t cm cache f sorted ND CS. apply (compile_cnf_ok_u t ND cm cache CS (S (vheight t)) (Nat.lt_succ_diag_r _)). Qed.
+Print Assumptions C03_sdd_compile_cnf_correct.
 
 (* operation programs: every pool entry of the model run -- looked at after the LAST operation --
    satisfies the invariant and denotes the value of the corresponding specification program *)
